@@ -459,6 +459,18 @@ pub fn cases(thorough: bool) -> Vec<Value> {
             out.push(json!({"fam": "multi", "layout": layout, "down_ms": down}));
         }
     }
+    // loading takes time: 3 ms (and 40 ms) of virtual time pass before every step of the loader
+    for layout in ["six-types-one-name", "all-16-dbs", "ttl-interleaved"] {
+        for tick in [3u64, 40] {
+            out.push(json!({"fam": "multi", "layout": layout, "down_ms": 0, "load_tick_ms": tick}));
+            out.push(json!({"fam": "multi", "layout": layout, "down_ms": 100, "load_tick_ms": tick}));
+        }
+    }
+    for ty in TYPES {
+        for ttl in [50u64, 10_000] {
+            out.push(json!({"fam": "dbttl", "type": ty, "db": 15, "ttl_ms": ttl, "down_ms": 0, "load_tick_ms": 7}));
+        }
+    }
     for n in if thorough { vec![63usize, 64, 16383, 16384, 70000] } else { vec![63, 64, 1000] } {
         out.push(json!({"fam": "multi", "layout": "many-keys", "n": n}));
     }
@@ -494,7 +506,7 @@ fn variant(case: &Value) -> String {
                 Some(_) => "ttl-longer-than-downtime",
             })
         }
-        "multi" => case["layout"].as_str().unwrap_or("").to_string(),
+        "multi" => format!("{}{}", case["layout"].as_str().unwrap_or(""), if case["load_tick_ms"].as_u64().unwrap_or(0) > 0 { " slow-load" } else { "" }),
         "stream" => case["shape"].as_str().unwrap_or("").to_string(),
         "hist" => case["spec"].as_str().unwrap_or("").to_string(),
         "resave" => format!("{}:{}->{}", case["how"].as_str().unwrap_or(""), if case["first"] == 0 { "empty" } else { "data" }, if case["second"] == 0 { "empty" } else { "data" }),
@@ -534,7 +546,15 @@ impl Runner {
 
     /// SAVE on the running server `srv` (its dataset already built), stop it, let `down_ms` pass, start a new
     /// server on the same directory and compare the API-level dumps. Consumes the server.
-    pub fn round_trip(&mut self, srv: Srv, mut c: Client, down_ms: u64) -> Result<RoundTrip, String> {
+    pub fn round_trip(&mut self, srv: Srv, c: Client, down_ms: u64) -> Result<RoundTrip, String> {
+        self.round_trip_slow(srv, c, down_ms, 0)
+    }
+
+    /// `load_tick_ms` > 0: loading takes time - the virtual clock moves by that much before every step of the loader
+    /// (under a frozen clock a loader that anchors the deadlines to a clock reading taken once, at the start of the
+    /// load, is indistinguishable from one that reads the clock per key; a seeded change of that kind made every
+    /// deadline late by the time the load had taken so far)
+    pub fn round_trip_slow(&mut self, srv: Srv, mut c: Client, down_ms: u64, load_tick_ms: u64) -> Result<RoundTrip, String> {
         let d0 = api_dump(&srv, &mut c)?;
         let r = call_big(&srv, &mut c, &[b("SAVE")])?;
         let mut problems: Vec<(String, Value)> = Vec::new();
@@ -548,7 +568,12 @@ impl Runner {
             vtime::tick(down_ms * MS).map_err(|_| "settle timeout during the downtime".to_string())?;
         }
         let opts = SrvOpts { dir: Some(dir.clone()), ..SrvOpts::default() };
+        crate::gate::LOAD_TICKS.store(0, std::sync::atomic::Ordering::SeqCst);
+        crate::gate::LOAD_TICK_NS.store(load_tick_ms * MS, std::sync::atomic::Ordering::SeqCst);
         let started = std::panic::catch_unwind(std::panic::AssertUnwindSafe(|| Srv::start(&opts)));
+        crate::gate::LOAD_TICK_NS.store(0, std::sync::atomic::Ordering::SeqCst);
+        // the time the load took counts as downtime for every key (the remaining times are read after it)
+        let down_ms = down_ms + load_tick_ms * crate::gate::LOAD_TICKS.load(std::sync::atomic::Ordering::SeqCst);
         self.restarts += 2;
         let srv2 = match started {
             Ok(s) => s,
@@ -652,7 +677,7 @@ impl Runner {
                 return Err(format!("dataset construction: {} -> {}", resp::show_cmd(&cmd), resp::show(&r)));
             }
         }
-        self.round_trip(srv, c, case["down_ms"].as_u64().unwrap_or(0))
+        self.round_trip_slow(srv, c, case["down_ms"].as_u64().unwrap_or(0), case["load_tick_ms"].as_u64().unwrap_or(0))
     }
 }
 
